@@ -362,7 +362,11 @@ class OFDM:
         """
         num_ofdm_symbols = (received_data.size //
                             (self.fft_size + self.cp_size))
-        received_data.shape = (num_ofdm_symbols, self.fft_size + self.cp_size)
+        # Note: use `reshape` (a new view or a copy) instead of assigning to
+        # `received_data.shape`, which would change the shape of the
+        # caller's array in-place.
+        received_data = np.reshape(
+            received_data, (num_ofdm_symbols, self.fft_size + self.cp_size))
         received_data_no_CP = received_data[:, self.cp_size:]
 
         return received_data_no_CP
